@@ -154,21 +154,84 @@ def deletion_lattice(n: grammar.Names) -> list[dict[str, Any]]:
     return out
 
 
+EXTRA_TEMPLATES = {"image": "<img {{ image.src }}>", "text": "<p>{{ text.body }}</p>", "quote": "<q>{{ quote.body }}{{ quote.by }}</q>", "row": "[{{ row }}]"}
+EXTRA_DATA = {
+    "blocks": [{"kind": "image", "src": "a.png"}, {"kind": "text", "body": "hello"}, {"kind": "quote", "body": "b", "by": "me"}, {"kind": "image", "src": "c.png"}],
+    "names": ["row", "text"], "flags": [False], "nils": [None], "cnt": 2, "one": 1, "h": {"n": 3, "z": None}, "amount": 12, "when": 0,
+}  # fmt: skip
+
+
+def extra_cases() -> list[dict[str, Any]]:
+    """Constructs the generated space does not reach: one node loading different partials in turn, plural filters with a
+    count that comes from data, the formatting filters that read configuration variables of their own."""
+    srcs = [
+        "{% for b in blocks %}{% include b.kind with b %}{% endfor %}", "{% for b in blocks %}{% include b.kind for blocks %}{% break %}{% endfor %}",
+        "{% for nm in names %}{% include nm with one %}{% endfor %}{% for nm in names reversed %}{% include nm with one %}{% endfor %}",
+        "{% include blocks[0].kind with blocks[0] %}{% include blocks[1].kind with blocks[1] %}",
+        "{{ 'one item' | ngettext: 'many items', cnt }}", "{{ 'one item' | npgettext: 'ctx', 'many items', h.n }}", "{{ 'one item' | ngettext: 'many items', h.nosuch }}",
+        "{% assign c2 = h.n %}{{ 'one' | ngettext: 'many', c2 }}", "{{ 'one' | t: plural: 'many', count: cnt }}", "{{ 'one %(count)s' | t: plural: 'many %(count)s', count: h.n }}",
+        "{% translate count: cnt %}one{% plural %}many{% endtranslate %}", "{% translate count: h.n, context: h.z %}one{% plural %}many {{ count }}{% endtranslate %}",
+        "{{ amount | unit: 'length-meter' }}", "{{ amount | unit: 'length-meter', length: 'short' }}", "{{ amount | currency }}", "{{ amount | decimal }}", "{{ when | datetime }}",
+        "{{ amount | money }}{{ amount | money_with_currency }}", "{{ amount | currency: group_separator: false }}{{ amount | decimal: group_separator: false }}", "{{ when | datetime: format: 'short' }}",
+    ]
+    srcs += [
+        "{% if flags contains one %}Y{% else %}N{% endif %}{% if nils contains one %}Y{% else %}N{% endif %}", "{% assign a2 = h.z, one %}{{ a2 | uniq | size }}{% assign a3 = flags[0], one %}{{ a3 | uniq | size }}",
+        "{% if one == false %}Y{% else %}N{% endif %}{% if one == nil %}Y{% else %}N{% endif %}{% if false == one %}Y{% else %}N{% endif %}", "{{ flags | where: 'k', one | size }}{{ nils | compact | size }}",
+        "{% case one %}{% when false %}F{% when nil %}N{% else %}E{% endcase %}",
+    ]
+    # (the programs that bind a value of the wrong shape on purpose are not expected to succeed under strict policies)
+    incomplete = ("nosuch", " for blocks %}", "with one %}")
+    return [{"source": s_, "own": True, "complete_ok": not any(x in s_ for x in incomplete)} for s_ in srcs]
+
+
+def _extra_lattice() -> list[dict[str, Any]]:
+    import copy
+
+    out = [copy.deepcopy(EXTRA_DATA)]
+    for k in ("cnt", "one", "h", "amount", "when", "names", "blocks"):
+        d = copy.deepcopy(EXTRA_DATA)
+        del d[k]
+        out.append(d)
+    for sub in ("n", "z"):
+        d = copy.deepcopy(EXTRA_DATA)
+        del d["h"][sub]
+        out.append(d)
+    for k in ("cnt", "one", "amount"):
+        d = copy.deepcopy(EXTRA_DATA)
+        d[k] = None
+        out.append(d)
+    d = copy.deepcopy(EXTRA_DATA)
+    for b in d["blocks"]:
+        b.pop("src", None)
+        b.pop("by", None)
+    out.append(d)
+    return out
+
+
 def _spaces(tier: str, seed: int) -> dict[str, ps.SubSpace]:
     key = (tier, seed)
     if _STATE.get("key") != key:
         sp = ps.standard_spaces(seed, tier, pairs="l0" if tier == "quick" else "l1")
+        ex = extra_cases()
+        sp.append(ps.SubSpace("dynamic-partials-and-config-readers", len(ex), lambda i: ex[i]))
         n = grammar.Names(seed)
         srcs = grammar.loader_sources(seed)
         _STATE.update(
             key=key,
             spaces={s.name: s for s in sp},
             data=deletion_lattice(n),
+            srcs=srcs,
             envs={
                 "default": impl.make_env(templates=srcs, undefined=RecUndefined),
                 "strict": impl.make_env(templates=srcs, undefined=StrictUndefined),
                 "falsy": impl.make_env(templates=srcs, undefined=FalsyStrictUndefined),
             },
+            own_envs={
+                "default": impl.make_env(templates=EXTRA_TEMPLATES, undefined=RecUndefined, shopify=True),
+                "strict": impl.make_env(templates=EXTRA_TEMPLATES, undefined=StrictUndefined, shopify=True),
+                "falsy": impl.make_env(templates=EXTRA_TEMPLATES, undefined=FalsyStrictUndefined, shopify=True),
+            },
+            own_data=_extra_lattice(),
         )
     return _STATE["spaces"]
 
@@ -193,10 +256,14 @@ def _construct(src: str) -> str:
     return ",".join(t for t in tags if not t.startswith("end")) + "|" + ",".join(filters)
 
 
+_LAST_UNDEFINED = [""]
+
+
 def _render(t: Any, d: dict[str, Any]) -> tuple[str, Any]:
     try:
         return ("ok", t.render(**d))
-    except UndefinedError:
+    except UndefinedError as e:
+        _LAST_UNDEFINED[0] = str(e.message)
         return ("undefined", None)
     except LiquidError as e:
         return ("liquid", type(e).__name__)
@@ -207,7 +274,9 @@ def _render(t: Any, d: dict[str, Any]) -> tuple[str, Any]:
 def check_case(case: dict[str, Any], res: ShardResult | None) -> list[tuple[str, Any, Any]]:
     out: list[tuple[str, Any, Any]] = []
     src = ps.case_source(case)
-    envs = _STATE["envs"]
+    envs = _STATE["own_envs"] if case.get("own") else _STATE["envs"]
+    datas = _STATE["own_data"] if case.get("own") else _STATE["data"]
+    partial_sources = list((EXTRA_TEMPLATES if case.get("own") else _STATE["srcs"]).values())
     try:
         ts = {k: e.from_string(src, name="main") for k, e in envs.items()}
     except LiquidError:
@@ -217,7 +286,7 @@ def check_case(case: dict[str, Any], res: ShardResult | None) -> list[tuple[str,
     created_some = created_none = False
     # (a macro parameter without an argument is an undefined of the parameter's own name, whatever the data holds)
     shadowers = set(re.findall(r"[\w-]+", " ".join(re.findall(r"\{%-?\s*macro\s+([^%]*)%\}", src))))
-    for d in _STATE["data"]:
+    for d in datas:
         RecUndefined.created = 0
         RecUndefined.touched = 0
         RecUndefined.paths.clear()
@@ -240,6 +309,14 @@ def check_case(case: dict[str, Any], res: ShardResult | None) -> list[tuple[str,
             out.append((f"C16:default-raises-UndefinedError:{_construct(src)}", "default policy never raises UndefinedError", {"data": d}))
         for pol in ("strict", "falsy"):
             o = _render(ts[pol], d)
+            if o[0] == "undefined":
+                # the name the error is about must be one the template (or a partial it loads) mentions: a variable
+                # the ENGINE looks up for its own configuration is not something the template uses
+                m = re.match(r"'([^']+)' is undefined", _LAST_UNDEFINED[0])
+                if m and not re.search(r"(?<![\w-])" + re.escape(m.group(1)) + r"(?![\w-])", src + " ".join(partial_sources)):
+                    out.append((f"C16:{pol}-raises-for-a-name-the-template-does-not-mention:{_construct(src)}", "UndefinedError only for variables the template uses", {"policy": pol, "name": m.group(1), "data": d}))
+                if case.get("complete_ok") and d is datas[0]:
+                    out.append((f"C16:{pol}-raises-on-complete-data:{_construct(src)}", "every variable this program uses exists in this data set", {"policy": pol, "error": _LAST_UNDEFINED[0], "data": d}))
             if o[0] == "undefined" and (created == 0 or touched == 0):
                 out.append(
                     (
